@@ -52,7 +52,7 @@ type Record struct {
 	BlockRoot  refspec.Root // latest block root at this point
 	ParentRoot refspec.Root // parent of BlockRoot
 	Ref        *refspec.State
-	Branch     int // 0 = trunk
+	Branch     int  // 0 = trunk
 	Head       bool // the view's head entry (last trunk step)
 	Signed     *refspec.SignedBlock
 }
@@ -521,4 +521,3 @@ func (v *View) HeadStateRoot() common.Root { return v.head.state.HashTreeRoot(tr
 
 var _ beacon.Chain = (*View)(nil)
 var _ beacon.ChainEntry = (*Entry)(nil)
-
